@@ -137,6 +137,30 @@ INIT_RE = re.compile(r'^(-?\d+) \[label=.*style = filled\]')
 NODE_RE = re.compile(r'^(-?\d+) \[label="((?:[^"\\]|\\.)*)"')
 
 
+def split_args(text):
+    """splits TLA+ action arguments on top-level commas (tuples, sets, records stay whole)"""
+    out = []; depth = 0; cur = ""; i = 0
+    while i < len(text):
+        two = text[i:i + 2]
+        if two in ("<<", "(.", ):
+            depth += 1; cur += two; i += 2; continue
+        if two in (">>", ".)"):
+            depth -= 1; cur += two; i += 2; continue
+        ch = text[i]
+        if ch in "[{(":
+            depth += 1
+        elif ch in "]})":
+            depth -= 1
+        if ch == "," and depth == 0:
+            out.append(cur); cur = ""
+        else:
+            cur += ch
+        i += 1
+    if cur.strip():
+        out.append(cur)
+    return out
+
+
 def parse_dot(path, want_nodes=False):
     """returns (init_nodes, edges{src: [(dst, action, args)]}, nodes{id: label} if want_nodes)"""
     inits = []; edges = collections.defaultdict(list); nodes = {}
@@ -149,7 +173,7 @@ def parse_dot(path, want_nodes=False):
                 act = am.group(1) if am else lab
                 args = []
                 if am and am.group(2):
-                    args = [a.strip().strip('"') for a in am.group(2).split(",")]
+                    args = [a.strip().strip('"') for a in split_args(am.group(2))]
                 edges[m.group(1)].append((m.group(2), act, tuple(args)))
                 continue
             if "style = filled" in line:
